@@ -28,8 +28,8 @@ MODULES = {
 def modules():
     """MODULES extended by kani/modules.json if present: {"src/x.rs": ["x.rs", ...]}"""
     m = {k: list(v) for k, v in MODULES.items()}
-    p = os.path.join(VERIF, 'kani', 'modules.json')
-    if os.path.exists(p):
+    import glob
+    for p in sorted(glob.glob(os.path.join(VERIF, 'kani', 'modules.d', '*.json'))):
         for k, v in json.load(open(p)).items():
             m.setdefault(k, [])
             for f in v:
